@@ -1019,6 +1019,151 @@ example : ¬ DisjointCuts f04Witness := by
 /-- without deduplication both replicas come back complete on the same input -/
 example : f04Witness.reps.map (selectRaw 1 200000) = [some (some f04S), some (some f04S)] := by decide
 
+/-! ### the label side of C04: which copies form one logical series
+
+  The querier never removes a replica label: with deduplication on it passes the replica labels to
+  the stores (`WithoutReplicaLabels`) and merges neighbouring series with EQUAL label sets.  The
+  model's store (`storeLabels`) is the specification "every requested replica label is removed from
+  both the external and the series labels" — for the stores themselves that is theorem C08 of the
+  `stores` family; for `TSDBStore.Series` the regenerated facts below pin the two unconditional
+  `rmLabels` calls.  Under that specification no returned series carries a replica label and there
+  is exactly one series per label set after removing the replica labels. -/
+
+theorem mem_insertLbl {x l : Lbl} : ∀ {acc : List Lbl}, x ∈ insertLbl l acc → x = l ∨ x ∈ acc := by
+  intro acc
+  induction acc with
+  | nil => intro h; simp [insertLbl] at h; exact Or.inl h
+  | cons m ms ih =>
+    intro h
+    unfold insertLbl at h
+    split at h
+    · rcases List.mem_cons.mp h with h | h
+      · exact Or.inl h
+      · exact Or.inr h
+    · split at h
+      · rcases List.mem_cons.mp h with h | h
+        · exact Or.inl h
+        · exact Or.inr (List.mem_cons_of_mem _ h)
+      · rcases List.mem_cons.mp h with h | h
+        · exact Or.inr (by rw [h]; exact List.mem_cons_self)
+        · rcases ih h with h | h
+          · exact Or.inl h
+          · exact Or.inr (List.mem_cons_of_mem _ h)
+
+theorem mem_foldl_insertLbl {x : Lbl} : ∀ (ls acc : List Lbl),
+    x ∈ ls.foldl (fun acc l => insertLbl l acc) acc → x ∈ ls ∨ x ∈ acc := by
+  intro ls
+  induction ls with
+  | nil => intro acc h; exact Or.inr h
+  | cons l ls ih =>
+    intro acc h
+    rcases ih _ h with h | h
+    · exact Or.inl (List.mem_cons_of_mem _ h)
+    · rcases mem_insertLbl h with h | h
+      · exact Or.inl (by rw [h]; exact List.mem_cons_self)
+      · exact Or.inr h
+
+theorem mem_extendLabels {x : Lbl} {ser ext : List Lbl} (h : x ∈ extendLabels ser ext) :
+    x ∈ ser ∨ x ∈ ext := by
+  unfold extendLabels at h
+  rcases mem_foldl_insertLbl _ _ h with h | h
+  · exact Or.inr h
+  · rcases mem_foldl_insertLbl _ _ h with h | h
+    · exact Or.inl h
+    · cases h
+
+/-- **the store specification strips every requested replica label**, wherever it comes from -/
+theorem C04_store_strips (rl : List String) (ext ser : List Lbl) :
+    ∀ l ∈ storeLabels rl ext ser, l.1 ∉ rl := by
+  intro l hl hrl
+  unfold storeLabels rmLabels at hl
+  rcases mem_extendLabels hl with h | h <;>
+  · have := (List.mem_filter.mp h).2
+    simp [hrl] at this
+
+theorem groupCopiesF_spec : ∀ (n : Nat) (cs : List (List Lbl × Nat × List Sample)),
+    (∀ g ∈ groupCopiesF n cs, ∃ c ∈ cs, c.1 = g.1) ∧ (groupCopiesF n cs).Pairwise (fun a b => a.1 ≠ b.1) := by
+  intro n
+  induction n with
+  | zero =>
+    intro cs
+    rw [groupCopiesF]
+    exact ⟨(by intro g hg; cases hg), List.Pairwise.nil⟩
+  | succ n ih =>
+    intro cs
+    cases cs with
+    | nil => simp [groupCopiesF]
+    | cons c rest =>
+      obtain ⟨ls, i, sm⟩ := c
+      rw [groupCopiesF]
+      obtain ⟨i1, i2⟩ := ih (rest.filter fun c => !(c.1 == ls))
+      refine ⟨?_, ?_⟩
+      · intro g hg
+        rcases List.mem_cons.mp hg with hg | hg
+        · exact ⟨(ls, i, sm), List.mem_cons_self, by rw [hg]⟩
+        · obtain ⟨c, hc, hc2⟩ := i1 g hg
+          exact ⟨c, List.mem_cons_of_mem _ (List.mem_filter.mp hc).1, hc2⟩
+      · refine List.Pairwise.cons ?_ i2
+        intro g hg heq
+        obtain ⟨c, hc, hc2⟩ := i1 g hg
+        have := (List.mem_filter.mp hc).2
+        simp only [] at heq
+        rw [hc2, ← heq] at this
+        simp at this
+
+/-- the fuel `cs.length` suffices: every copy lands in a group -/
+theorem groupCopiesF_complete : ∀ (n : Nat) (cs : List (List Lbl × Nat × List Sample)), cs.length ≤ n →
+    ∀ c ∈ cs, ∃ g ∈ groupCopiesF n cs, g.1 = c.1 := by
+  intro n
+  induction n with
+  | zero =>
+    intro cs h c hc
+    have : cs = [] := List.eq_nil_of_length_eq_zero (Nat.le_zero.mp h)
+    subst this; cases hc
+  | succ n ih =>
+    intro cs h c hc
+    cases cs with
+    | nil => cases hc
+    | cons d rest =>
+      obtain ⟨ls, i, sm⟩ := d
+      rw [groupCopiesF]
+      by_cases heq : c.1 = ls
+      · exact ⟨_, List.mem_cons_self, heq.symm⟩
+      · have hc' : c ∈ rest := by
+          rcases List.mem_cons.mp hc with h1 | h1
+          · rw [h1] at heq; exact absurd rfl heq
+          · exact h1
+        have hlen : (rest.filter fun c => !(c.1 == ls)).length ≤ n :=
+          Nat.le_trans (List.length_filter_le _ _) (Nat.le_of_succ_le_succ h)
+        obtain ⟨g, hg, hg2⟩ := ih _ hlen c (List.mem_filter.mpr ⟨hc', by simp [heq]⟩)
+        exact ⟨g, List.mem_cons_of_mem _ hg, hg2⟩
+
+/-- **one series per label set, none carrying a replica label**: the logical series the querier
+    deduplicates over stores that follow the stripping specification have pairwise different label
+    sets, and no such label set contains a requested replica label -/
+theorem C04_one_series_per_labelset (rl : List String) (stores : List TStore) :
+    (groupCopies (tsdbCopies rl stores)).Pairwise (fun a b => a.1 ≠ b.1) ∧
+    ∀ g ∈ groupCopies (tsdbCopies rl stores), ∀ l ∈ g.1, l.1 ∉ rl := by
+  obtain ⟨h1, h2⟩ := groupCopiesF_spec (tsdbCopies rl stores).length (tsdbCopies rl stores)
+  refine ⟨h2, ?_⟩
+  intro g hg l hl
+  obtain ⟨c, hc, hc2⟩ := h1 g hg
+  unfold tsdbCopies at hc
+  obtain ⟨p, _, hp⟩ := List.mem_flatMap.mp hc
+  obtain ⟨q, _, hq⟩ := List.mem_map.mp hp
+  rw [← hc2, ← hq] at hl
+  exact C04_store_strips rl _ _ l hl
+
+/-- the HA-pair-behind-two-receivers example: four copies, one logical series -/
+example : (selectTSDB true true ["receive_replica", "prometheus_replica"] 0 100
+    [{ ext := [("receive_replica", "r1"), ("region", "eu")],
+       series := [([("__name__", "up"), ("prometheus_replica", "p1")], [⟨10, 1⟩, ⟨20, 2⟩]),
+                  ([("__name__", "up"), ("prometheus_replica", "p2")], [⟨10, 1⟩, ⟨20, 2⟩])] },
+     { ext := [("receive_replica", "r2"), ("region", "eu")],
+       series := [([("__name__", "up"), ("prometheus_replica", "p1")], [⟨10, 1⟩, ⟨20, 2⟩]),
+                  ([("__name__", "up"), ("prometheus_replica", "p2")], [⟨10, 1⟩, ⟨20, 2⟩])] }])
+    = [("__name__=up,region=eu", some [⟨10, 1⟩, ⟨20, 2⟩])] := by decide
+
 /-! ### regenerated facts: the querier pieces the model transliterates -/
 
 theorem C04_fact_pipeline :
@@ -1029,5 +1174,15 @@ theorem C04_fact_pipeline :
     Thanos.Facts.chunkIterSwitchSeek = ["lastT + 1"] ∧
     Thanos.Facts.chunkIterSeekStop = "ct >= t" ∧
     Thanos.Facts.boundedSeekTests = ["t > it.maxt", "t < it.mint"] := by decide
+
+/-- `TSDBStore.Series` removes the requested replica labels from the external labels AND from the
+    labels of every series, unconditionally (the model's `storeLabels`) -/
+theorem C04_fact_store_strip :
+    Thanos.Facts.readPathTSDBStrip =
+      ["finalExtLset := rmLabels(s.extLsetAsLabelSets[0].Copy(), extLsetToRemove)",
+       "completeLabelset := labelpb.ExtendSortedLabels(rmLabels(series.Labels(), extLsetToRemove), finalExtLset)"] ∧
+    Thanos.Facts.readPathTSDBStripArgs =
+      ["s.extLsetAsLabelSets[0].Copy(), extLsetToRemove", "series.Labels(), extLsetToRemove"] ∧
+    Thanos.Facts.readPathTSDBStripGuards = [] := by decide
 
 end Thanos.Dedup
